@@ -367,8 +367,8 @@ func check(t ev.TB, c Case, labels ...string) {
 	ev.Case(nt, c, labels...)
 	ev.Count("child_processes", int64(len(c.Rounds)+1))
 	if f != nil && f.inconclusive {
-		ev.Count("inconclusive_cases", 1)
-		t.Fatalf("VERIF-INCONCLUSIVE %s", f.msg)
+		ev.Inconclusive(t, f.msg)
+		return
 	}
 	if f != nil {
 		ev.Fail(t, "crash-restart", c, "%s", f.msg)
